@@ -901,6 +901,7 @@ func (x *Exec) step(s *State, in ssa.Instruction) bool {
 		}
 		if li := x.loopsOf(fr.fn).inLoop(fr.block); li != nil {
 			de.inLoop = li
+			x.checkDeferBinds(s, li, v)
 		}
 		fr.defers = append(fr.defers, de)
 		return adv()
@@ -1340,4 +1341,58 @@ func (x *Exec) next(s *State, v *ssa.Next) bool {
 	s.set(v, TupleVal{tTrue, k, elem})
 	s.frame.idx++
 	return true
+}
+
+// checkDeferBinds: where a defer statement executes inside a loop, every
+// variable it captures per iteration holds the value that the contract's
+// binds clause claims for this iteration (and is written nowhere else).
+func (x *Exec) checkDeferBinds(s *State, li *loopInfo, d *ssa.Defer) {
+	if s.frame.fn != x.entry || x.contract == nil {
+		return
+	}
+	mc, ok := d.Call.Value.(*ssa.MakeClosure)
+	if !ok {
+		return
+	}
+	binds := x.contract.DeferBinds[li.key]
+	for _, b := range mc.Bindings {
+		bi, ok := b.(ssa.Instruction)
+		if !ok || !li.body[bi.Block()] {
+			continue
+		}
+		al, ok := b.(*ssa.Alloc)
+		if !ok {
+			continue
+		}
+		expr := binds[al.Comment]
+		if expr == nil {
+			continue
+		}
+		// the variable is assigned exactly once (at its declaration)
+		stores := 0
+		for _, ref := range *al.Referrers() {
+			if st, ok := ref.(*ssa.Store); ok && st.Addr == al {
+				stores++
+			}
+		}
+		fnc := mc.Fn.(*ssa.Function)
+		for _, blk := range fnc.Blocks {
+			for _, in := range blk.Instrs {
+				if st, ok := in.(*ssa.Store); ok {
+					if fv, ok := st.Addr.(*ssa.FreeVar); ok && fv.Name() == al.Comment {
+						stores += 2
+					}
+				}
+			}
+		}
+		env := x.loopEnv(s, li)
+		v := env.eval(expr)
+		cell := s.toPtr(s.get(al), al.Type())
+		cur := s.load(cell)
+		t := mkEq(cur, env.rv(v))
+		if stores != 1 {
+			t = tFalse
+		}
+		s.goal(fmt.Sprintf("%s#defer-binds:%s:%s", x.entryKey, strings.ReplaceAll(li.key, " ", "_"), al.Comment), "assert", nil, t, x.pos(d), "the deferred call captures "+al.Comment+" with the value the contract states")
+	}
 }
